@@ -350,10 +350,20 @@ impl Coerceable for Expression {
             Expression::None => Ok(Expression::None),
             Expression::Assets(x) => Ok(Expression::Assets(x)),
             Expression::UtxoSet(x) => {
-                let all = x
-                    .into_iter()
-                    .map(|x| x.assets)
-                    .fold(CanonicalAssets::empty(), |acc, x| acc + x);
+                // the value of the set enters the transaction: it has to be the exact sum
+                let mut all = CanonicalAssets::empty();
+
+                for utxo in x {
+                    let held = utxo.assets;
+
+                    all = all.clone().checked_add(held.clone()).ok_or_else(|| {
+                        Error::InvalidBinaryOp(
+                            "add".to_string(),
+                            format!("{all}"),
+                            format!("{held}"),
+                        )
+                    })?;
+                }
 
                 Ok(Expression::Assets(all.into()))
             }
